@@ -192,6 +192,9 @@ func runFaulted(t *testing.T, seed int64, prefix []Op, target Op, mode string, k
 		w.Ctx = context.Background()
 		fr.err = res.Err
 		fr.lost = res.Lost
+		// (a cancelled context makes database/sql roll the transaction back from a goroutine of its own:
+		// let it finish before looking whether the transaction is still open)
+		synctest.Wait()
 		fr.txOpen = !w.Ctl.TxIdle()
 		if fr.txOpen {
 			// nothing else can be done with this database: the write lock is held
